@@ -309,6 +309,111 @@ def gen_case(rng, big=False):
 
 
 # ---------------------------------------------------------------------------------------------
+# corpora with PRESCRIBED counts of counts at the highest order, aimed at the case splits of the discount formula
+_PROFILES = None
+
+
+def discount_profiles():
+    """small (n1, n2, n3, n4) classified by where the closed form D_j = j - (j+1) Y n_{j+1} / n_j falls relative to the
+    accepted range [0, j]: exactly 0, just inside, just outside (negative), D3 exactly 3 (n4 = 0), n_j = 0, interior"""
+    global _PROFILES
+    if _PROFILES is None:
+        cls = {"D2=0": [], "D3=0": [], "D2<0": [], "D3<0": [], "D2>0small": [], "D3>0small": [], "D3=3": [], "nj=0": [], "interior": []}
+        R = range(0, 13)
+        for n1 in R:
+            for n2 in R:
+                for n3 in R:
+                    for n4 in R:
+                        n = (n1, n2, n3, n4)
+                        if n1 + n2 + n3 + n4 == 0:
+                            continue
+                        if 0 in (n1, n2, n3):
+                            if n1 + n2 + n3 + n4 <= 8:
+                                cls["nj=0"].append(n)
+                            continue
+                        y = Fraction(n1, n1 + 2 * n2)
+                        d2 = 2 - 3 * y * Fraction(n3, n2)
+                        d3 = 3 - 4 * y * Fraction(n4, n3)
+                        if d2 == 0 and d3 >= 0:
+                            cls["D2=0"].append(n)
+                        elif d3 == 0 and d2 >= 0:
+                            cls["D3=0"].append(n)
+                        elif d2 < 0 and d2 > Fraction(-1, 4) and d3 >= 0:
+                            cls["D2<0"].append(n)
+                        elif d3 < 0 and d3 > Fraction(-1, 4) and d2 >= 0:
+                            cls["D3<0"].append(n)
+                        elif 0 < d2 < Fraction(1, 6) and d3 >= 0:
+                            cls["D2>0small"].append(n)
+                        elif 0 < d3 < Fraction(1, 6) and d2 >= 0:
+                            cls["D3>0small"].append(n)
+                        elif n4 == 0 and d2 >= 0:
+                            cls["D3=3"].append(n)
+                        elif d2 > 0 and d3 > 0 and n1 + n2 + n3 + n4 <= 14:
+                            cls["interior"].append(n)
+        _PROFILES = cls
+    return _PROFILES
+
+
+def build_profile_corpus(rng, order, prof, extra5):
+    """sentences over fresh word types such that exactly prof[j-1] distinct order-`order` n-grams occur j times (j = 1..4)
+    and extra5 occur 5+ times: a sentence of k fresh words, repeated m times, contributes k + 3 - order n-grams of
+    count m (order 1: its k words, and </s> once per line)."""
+    sents = []
+    fresh = [0]
+
+    def words(k):
+        out = [b"p%d" % (fresh[0] + i) for i in range(k)]
+        fresh[0] += k
+        return out
+    want = {j: prof[j - 1] for j in (1, 2, 3, 4)}
+    want[rng.range(5, 7)] = extra5
+    if order == 1:
+        # one sentence holding every word the right number of times; </s> then has count 1
+        line = []
+        if want[1] == 0:
+            return None
+        want[1] -= 1
+        for m, c in want.items():
+            for w in words(c):
+                line += [w] * m
+        rng.shuffle(line)
+        return [line]
+    kmin = max(order - 2, 1)
+    for m, c in sorted(want.items()):
+        left = c
+        while left > 0:
+            sizes = [k + 3 - order for k in range(kmin, kmin + 3) if k + 3 - order <= left]
+            if not sizes:
+                if order == 2 and left == 1 and not any(not s for s in sents):
+                    sents += [[] for _ in range(m)]         # the bigram <s> </s>
+                    left = 0
+                    continue
+                return None
+            sz = rng.choice(sizes)
+            sents += [words(sz + order - 3)] * m
+            left -= sz
+    rng.shuffle(sents)
+    return sents
+
+
+def gen_profile_case(rng):
+    prof_cls = discount_profiles()
+    for _ in range(20):
+        cls = rng.choice(sorted(prof_cls))
+        if not prof_cls[cls]:
+            continue
+        prof = rng.choice(prof_cls[cls])
+        order = rng.choice([1, 1, 2, 2, 3, 4])
+        sents = build_profile_corpus(rng, order, prof, rng.range(0, 3))
+        if sents is None:
+            continue
+        fallback = rng.choice([None, None, [], [0.5, 1, 1.5], [0.25, 0.5, 0.75]])
+        return Case(render(rng, sents, plain=True), order, None, None, interp=not rng.chance(1, 5), fallback=fallback,
+                    mem=gen_mem(rng, order, 40) if rng.chance(1, 4) else None, tag="gen:profile:%s:%s" % (cls, ",".join(map(str, prof))))
+    return gen_case(rng)
+
+
+# ---------------------------------------------------------------------------------------------
 # running lmplz
 class Run:
     pass
@@ -601,6 +706,66 @@ def kn_oracle(ids, order, prune, allowed, interp, fallback):
             bo = gamma(k + 1, g) if k < N and den[k + 1].get(g, 0) else Fraction(1)
             out[k][g] = (p(g[:-1], g[-1]), bo)
     return ("built", [len(keep[k]) for k in range(1, N + 1)], discounts, out)
+
+
+def count_of_counts(ids, order):
+    """n[0..5] of the adjusted counts per order (what StatCollector collects), computed like kn_oracle does"""
+    N = order
+    cnt = [dict() for _ in range(N + 2)]
+    for s in ids:
+        toks = [1] + list(s) + [2]
+        for k in range(1, N + 2):
+            for i in range(1 if k == 1 else 0, len(toks) - k + 1):
+                g = tuple(toks[i:i + k])
+                cnt[k][g] = cnt[k].get(g, 0) + 1
+    out = []
+    for k in range(1, N + 1):
+        n = [0] * 6
+        if k == 1:
+            n[0] += 2
+        ext = {}
+        if k < N:
+            for h in cnt[k + 1]:
+                ext.setdefault(h[1:], set()).add(h[0])
+        for g, c in cnt[k].items():
+            a = c if (k == N or g[0] == 1) else len(ext.get(g, ()))
+            if a < 5:
+                n[a] += 1
+        out.append(n)
+    return out
+
+
+def exact_closed_form(n):
+    """Chen-Goodman closed form in exact arithmetic: the discounts if they exist and lie in [0, j], else None"""
+    if not (n[1] and n[2] and n[3]):
+        return None
+    y = Fraction(n[1], n[1] + 2 * n[2])
+    d = [j - (j + 1) * y * Fraction(n[j + 1], n[j]) for j in (1, 2, 3)]
+    return None if any(d[j - 1] < 0 or d[j - 1] > j for j in (1, 2, 3)) else d
+
+
+def float32_closed_form(n):
+    """the same in lmplz's float32 arithmetic, operation by operation (StatCollector::CalculateDiscounts): every float32
+    operation is the correctly rounded double operation on float32 operands"""
+    if not (n[1] and n[2] and n[3]):
+        return None
+    y = F32(F32(float(n[1])) / F32(float(n[1]) + 2.0 * float(n[2])))
+    d = []
+    for j in (1, 2, 3):
+        t = F32(F32(float(j + 1)) * y)
+        t = F32(t * F32(float(n[j + 1])))
+        t = F32(t / F32(float(n[j])))
+        v = F32(F32(float(j)) - t)
+        if v < 0.0 or v > j:
+            return None
+        d.append(v)
+    return d
+
+
+def rounding_borderline(ids, order):
+    """some order's closed form is accepted in exact arithmetic and rejected in float32 arithmetic or vice versa: only then
+    may lmplz legitimately differ from the exact estimate in its choice between closed form and fallback"""
+    return any((exact_closed_form(n) is None) != (float32_closed_form(n) is None) for n in count_of_counts(ids, order))
 
 
 def pad_prune(prune, order):
